@@ -12,6 +12,7 @@ Local Open Scope num_scope.
 Section DP.
 Context {T : Type} {N : Num T}.
 Variable vt : variant.
+Hypothesis Hrs : v_real_shortcut vt = real_shortcut_of_table.
 Notation oexpr := (oexpr T).
 Notation vec := (list T).
 
@@ -41,7 +42,7 @@ Lemma sp_eqb_SF_r (s : sp) : s = SF -> sp_eqb s SF = true.
 Proof. intros ->; reflexivity. Qed.
 
 (* c * A *)
-Lemma rmul_c_tab (a : oexpr) c : frange a -> rmul_c a c = py_rmul vt a (PScal c).
+Lemma rmul_c_tab (a : oexpr) c rl : frange a -> rmul_c a c = py_rmul vt a (PScal c rl).
 Proof.
   intros Hf. unfold py_rmul. rewrite owner_rmul_func. unfold rmul_c. destruct (ofunc a) eqn:F.
   - unfold rmul_functional, t_Functional_rmul. cbn [run ceval]. rewrite (sp_eqb_SF_r _ (Hf F)).
@@ -65,15 +66,17 @@ Proof.
 Qed.
 
 (* A * c *)
-Lemma mul_c_tab (a : oexpr) c : frange a -> mul_c vt a c = py_mul vt a (PScal c).
+Lemma mul_c_tab (a : oexpr) c rl : frange a -> mul_c vt a c rl = py_mul vt a (PScal c rl).
 Proof.
   intros Hf. unfold py_mul. rewrite owner_mul_func. unfold mul_c. destruct (ofunc a) eqn:F.
   - unfold mul_functional, t_Functional_mul. cbn [run ceval]. rewrite (sp_eqb_SF_r _ (Hf F)).
     destruct (c =? nzero); [reflexivity|]. destruct (olin vt a); reflexivity.
-  - assert (Op : mul_operator vt a (PScal c) = (if olin vt a then rmul_c a c else mkRScal false a c)).
-    { unfold mul_operator, t_Operator_mul. cbn [run ceval andb]. rewrite andb_true_r.
-      destruct (olin vt a); [|reflexivity]. cbn [do_act cb_rmul].
-      symmetry. apply rmul_c_tab. exact Hf. }
+  - assert (Op : mul_operator vt a (PScal c rl) =
+                 (if olin vt a && (rl || negb (v_real_shortcut vt)) then rmul_c a c else mkRScal false a c)).
+    { rewrite Hrs. unfold mul_operator, t_Operator_mul, real_shortcut_of_table.
+      cbn [run ceval andb orb negb tree_mentions_real cond_mentions_real].
+      rewrite (rmul_c_tab a c rl Hf).
+      destruct (olin vt a), rl; cbn [andb orb negb do_act cb_rmul]; reflexivity. }
     destruct a; try (symmetry; exact Op).
     unfold mul_rscal, t_RScal_mul. cbn [run ceval]. reflexivity.
 Qed.
@@ -155,18 +158,18 @@ Proof.
 Qed.
 
 (* A + c,  c + A *)
-Lemma add_operator_scal (a : oexpr) c : ofunc a = false -> add_operator vt a (PScal c) = add_c vt a c.
+Lemma add_operator_scal (a : oexpr) c : ofunc a = false -> add_operator vt a (PScal c true) = add_c vt a c.
 Proof.
   intros F. unfold add_operator, t_Operator_add, add_c. rewrite F. cbn [run ceval].
   destruct (oran a) eqn:R; cbn [sp_eqb do_act]; rewrite ?R; reflexivity.
 Qed.
-Lemma add_c_tab (a : oexpr) c : add_c vt a c = py_add vt a (PScal c).
+Lemma add_c_tab (a : oexpr) c : add_c vt a c = py_add vt a (PScal c true).
 Proof.
   unfold py_add, add_direct. rewrite owner_add_func. destruct (ofunc a) eqn:F.
   - unfold add_functional, t_Functional_add, add_c. rewrite F. reflexivity.
   - symmetry; apply add_operator_scal; exact F.
 Qed.
-Lemma add_c_rtab (a : oexpr) c : add_c vt a c = py_radd vt a (PScal c).
+Lemma add_c_rtab (a : oexpr) c : add_c vt a c = py_radd vt a (PScal c true).
 Proof.
   unfold py_radd. rewrite owner_radd_func. destruct (ofunc a) eqn:F.
   - unfold add_functional, t_Functional_add, add_c. rewrite F. reflexivity.
@@ -195,27 +198,27 @@ Proof. unfold py_sub. rewrite owner_sub_func. destruct (ofunc a); reflexivity. Q
 Lemma sub_op_tab (a b : oexpr) : frange b ->
   bind (rmul_c b neg1) (fun nb => add_op a nb) = py_sub vt a (POp b).
 Proof.
-  intros Hb. rewrite sub_run. cbn [do_act cb_rmul cb_add arith_cbs]. rewrite <- (rmul_c_tab b neg1 Hb).
+  intros Hb. rewrite sub_run. cbn [do_act cb_rmul cb_add arith_cbs]. rewrite <- (rmul_c_tab b neg1 true Hb).
   apply bind_ext. intros nb. apply add_op_tab.
 Qed.
 Lemma sub_v_tab (a : oexpr) (v : vec) : add_v a (vscal neg1 v) = py_sub vt a (PVec v).
 Proof. rewrite sub_run. cbn [do_act cb_add arith_cbs]. apply add_v_tab. Qed.
-Lemma sub_c_tab (a : oexpr) c : add_c vt a (neg1 * c) = py_sub vt a (PScal c).
+Lemma sub_c_tab (a : oexpr) c : add_c vt a (neg1 * c) = py_sub vt a (PScal c true).
 Proof. rewrite sub_run. cbn [do_act cb_add arith_cbs]. apply add_c_tab. Qed.
 Lemma rsub_v_tab (a : oexpr) (v : vec) : frange a ->
   bind (rmul_c a neg1) (fun na => add_v na v) = py_rsub vt a (PVec v).
 Proof.
   intros Hf. unfold py_rsub, t_Operator_rsub. cbn [run do_act cb_rmul cb_add arith_cbs].
-  rewrite <- (rmul_c_tab a neg1 Hf). apply bind_ext. intros na. apply add_v_tab.
+  rewrite <- (rmul_c_tab a neg1 true Hf). apply bind_ext. intros na. apply add_v_tab.
 Qed.
 Lemma rsub_c_tab (a : oexpr) c : frange a ->
-  bind (rmul_c a neg1) (fun na => add_c vt na c) = py_rsub vt a (PScal c).
+  bind (rmul_c a neg1) (fun na => add_c vt na c) = py_rsub vt a (PScal c true).
 Proof.
   intros Hf. unfold py_rsub, t_Operator_rsub. cbn [run do_act cb_rmul cb_add arith_cbs].
-  rewrite <- (rmul_c_tab a neg1 Hf). apply bind_ext. intros na. apply add_c_tab.
+  rewrite <- (rmul_c_tab a neg1 true Hf). apply bind_ext. intros na. apply add_c_tab.
 Qed.
-Lemma div_tab (a : oexpr) c : frange a ->
-  (if c =? nzero then Err ZeroDivErr else mul_c vt a (none_ / c)) = py_div vt a (PScal c).
+Lemma div_tab (a : oexpr) c rl : frange a ->
+  (if c =? nzero then Err ZeroDivErr else mul_c vt a (none_ / c) rl) = py_div vt a (PScal c rl).
 Proof.
   intros Hf. unfold py_div, t_Operator_truediv. cbn [run ceval do_act cb_mul arith_cbs].
   destruct (c =? nzero); [reflexivity|]. apply mul_c_tab; exact Hf.
